@@ -6,7 +6,7 @@ src = sys.argv[1] if len(sys.argv) > 1 else "/tmp/seed/out"
 dst = "/verif/seeded"
 os.makedirs(dst, exist_ok=True)
 rows = []
-for d in sorted(glob.glob(os.path.join(src, "C[0-9][0-9]-[0-9]"))):
+for d in sorted(glob.glob(os.path.join(src, "C[0-9][0-9]-[0-9]*"))):
     name = os.path.basename(d)
     try:
         meta = json.load(open(os.path.join(d, "meta.json")))
